@@ -1,0 +1,7 @@
+//go:build !verif
+
+package file
+
+import "context"
+
+func verifPoint(context.Context, string, ...any) {}
